@@ -79,6 +79,10 @@ def DApi.process (K : Kern α) (z : α) (owed : Nat → Nat) (fuel : Nat) (a : D
   | none => none
   | some (a2, out, rest) => some (a2, idone, out, rest)
 
+/-- `soxr_process` with neither an input nor an output buffer: only latches end-of-input (see `Api.signalEnd`) -/
+def DApi.signalEnd (owed : Nat → Nat) (a : DApi α) : DApi α :=
+  { a with flushing := true, eng := if a.error then a.eng else a.eng.flush owed }
+
 /-! ## every call is a sequence of engine operations -/
 
 theorem DApi.input_error (a : DApi α) (xs : List α) : (a.input xs).error = a.error := by
@@ -373,6 +377,7 @@ theorem process_runs_draining (K : Kern α) (z : α) (owed : Nat → Nat) (fuel 
 inductive ACall (α : Type)
   | process (inp : Option (List α)) (flushReq : Bool) (clamp : Option Nat) (olen : Nat) (script : List (DSupply α))
   | output (len0 : Nat) (script : List (DSupply α))
+  | signalEnd
 
 /-- `ApiRuns a calls accepted delivered a'`: a sequence of `soxr_process` / `soxr_output` calls, in any mix.  What a call
     accepted is the `idone` frames it reports of the block it was offered, followed by the samples of the input-function
@@ -388,6 +393,8 @@ inductive ApiRuns (K : Kern α) (z : α) (owed : Nat → Nat) : DApi α → List
   | output (a a2 a' : DApi α) (len0 fuel : Nat) (script rest : List (DSupply α)) (out F D : List α) (calls : List (ACall α)) :
       a.output K z owed fuel len0 script = some (a2, out, rest) → ApiRuns K z owed a2 calls F D a' →
       ApiRuns K z owed a (.output len0 script :: calls) (supplied (script.take (script.length - rest.length)) ++ F) (out ++ D) a'
+  | signal (a a' : DApi α) (F D : List α) (calls : List (ACall α)) :
+      ApiRuns K z owed (a.signalEnd owed) calls F D a' → ApiRuns K z owed a (.signalEnd :: calls) F D a'
 
 theorem take_of_append_right {β : Type} (used rest : List β) : (used ++ rest).take ((used ++ rest).length - rest.length) = used := by
   have : (used ++ rest).length - rest.length = used.length := by simp
@@ -423,6 +430,15 @@ theorem api_runs_engine (K : Kern α) (z : α) (owed : Nat → Nat) : ∀ (calls
       have e1 : script.take (script.length - rest.length) = used := by rw [u1]; exact take_of_append_right used rest
       rw [e1]
       exact ⟨ops ++ ops2, druns_append K z owed _ _ _ _ _ _ _ _ _ u3 r2, s2⟩
+    | signal _ _ F' D' _ hr =>
+      obtain ⟨ops2, r2, s2⟩ := ih (a.signalEnd owed) a' F D hr (fun _ => rfl)
+      cases he : a.error
+      · have e : (a.signalEnd owed).eng = a.eng.flush owed := by simp [DApi.signalEnd, he]
+        rw [e] at r2
+        exact ⟨.flush :: ops2, DRuns.flush _ _ _ _ _ r2, s2⟩
+      · have e : (a.signalEnd owed).eng = a.eng := by simp [DApi.signalEnd, he]
+        rw [e] at r2
+        exact ⟨ops2, r2, s2⟩
 
 end Soxr.Cr
 
@@ -439,6 +455,12 @@ def DSupply.toSupply : DSupply α → Supply
 
 def DApi.toApi (a : DApi α) : Api :=
   { eng := a.eng.toEng, flushing := a.flushing, error := a.error, maxIlen := a.maxIlen, hasFn := a.hasFn }
+
+theorem signalEnd_proj (num : Num) (a : DApi α) : (a.signalEnd num.owed).toApi = a.toApi.signalEnd num := by
+  unfold DApi.signalEnd Api.signalEnd DApi.toApi
+  cases a.error
+  · simp only [Bool.false_eq_true, if_false]; rw [DEng.flush_proj]
+  · simp only [if_true]
 
 theorem outputNoCb_proj (K : Kern α) (z : α) (num : Num) (fuel : Nat) (a : DApi α) (len : Nat) :
     (a.outputNoCb K z num.owed fuel len).map (fun r => (r.1.toApi, r.2.length)) = a.toApi.outputNoCb num fuel len := by
